@@ -199,6 +199,12 @@ def run(ctx):
                 t = rec["meta"]["tree"]
                 kids = {d: t["kids"].get(d, []) for d in DIRS}
                 lines.append(dict(id=rec["id"], top=t["top"], kids=kids, args=rec["meta"]["args"], obs=observe(rec)))
+            if os.environ.get("VERIF_SELFTEST") == "corrupt" and ix == 0:
+                # falsify one observation: the first run that patched something is recorded as having patched nothing
+                for ln in lines:
+                    if ln["obs"]["changed"]:
+                        ln["obs"] = dict(ln["obs"], changed=[])
+                        break
             write_ndjson(tf, lines)
             ctx.tlc("TraceDiscover", CFG_TRACE % (q(ALL_NAMES), tf, of), "trace-c15-%d-%d" % (ai, ix), workers=1, timeout=1800)
             vs = read_ndjson(of)
